@@ -88,6 +88,7 @@ func (fc *FnCtx) reset(pass int) {
 	fc.inlineDepth = 0
 	fc.qn = 0
 	fc.keyObj = map[heapKey]*types.Var{}
+	fc.owned = nil
 	if pass == 1 {
 		fc.keys = map[any]bool{}
 		fc.keyOrder = nil
